@@ -217,6 +217,11 @@ def write_evidence(pid, tier, seed, mod, plan, stats, sigs, samples, lines, case
             continue
         got = lines.get(rel, set()) & total
         reach[fn] = "%d/%d" % (len(got), len(total))
+    if os.environ.get("VERIF_LINES_DUMP"):
+        # audit aid (tools/uncovered.py): every line of the package this run executed, not only the anchored files
+        os.makedirs(os.environ["VERIF_LINES_DUMP"], exist_ok=True)
+        with open(os.path.join(os.environ["VERIF_LINES_DUMP"], "%s.json" % pid), "w") as fp:
+            json.dump({fn: sorted(ls) for fn, ls in lines.items()}, fp)
     cov = {
         "evaluations": cases,
         "distinct_nontrivial": len(sigs),
